@@ -226,9 +226,9 @@ class JsonReporter(object):
         # than the json data. so anything that is sent to stdout/err needs to
         # be captured.
         self._old_out = sys.stdout
-        sys.stdout = StringIO()
+        self._log_out = sys.stdout = StringIO()
         self._old_err = sys.stderr
-        sys.stderr = StringIO()
+        self._log_err = sys.stderr = StringIO()
         self.outstream = outstream
         # runtime and cleanup errors
         self.errors = []
@@ -272,9 +272,11 @@ class JsonReporter(object):
     def complete_run(self):
         """called when finished running all tasks"""
         # restore stdout
-        log_out = sys.stdout.getvalue()
+        # (read our own buffers: sys.stdout may have been left pointing to
+        # something else by actions running in threads)
+        log_out = self._log_out.getvalue()
         sys.stdout = self._old_out
-        log_err = sys.stderr.getvalue()
+        log_err = self._log_err.getvalue()
         sys.stderr = self._old_err
 
         # add errors together with stderr output
